@@ -51,7 +51,7 @@ def is_pop_size(e):
     return callee_is(e, "Population::size") and strip_conv(e[3][0]) == POP
 
 
-def check_extreme(ctx, name, reducer, other):
+def check_extreme_legacy(ctx, name, reducer, other):
     fn = ctx.fn(SEL % name)
     paths = ctx.paths(fn)
     rets = [p for p in paths if p.end == "return"]
@@ -72,15 +72,8 @@ def check_extreme(ctx, name, reducer, other):
                   reducer, "; ".join(short(p.ret) if p.ret else p.end for p in paths)))
 
 
-def check(ctx):
-    check_extreme(ctx, "best::Best", "Iterator::max", "Iterator::min")
-    check_extreme(ctx, "worst::Worst", "Iterator::min", "Iterator::max")
-    check_tournament(ctx, None)
-    from .common import check_population_size
-    check_population_size(ctx, "R07.3")
 
-
-def check_tournament(ctx, only_rule):
+def check_tournament_legacy(ctx, only_rule):
     """only_rule: when called from C06, every obligation is filed under that rule id"""
     if only_rule:
         real = ctx
@@ -150,6 +143,131 @@ def check_tournament(ctx, only_rule):
         drew = [c for c in p.calls() if callee_is(c, "IndexedRandom::choose_multiple", "IndexedRandom::choose")]
         ctx.check(not drew, "R07.3", "Tournament/no-draw-on-error", "no sampling on the error path", fn.at())
     ctx.floor("R07", len(paths), 2, "Tournament::select return paths")
+
+
+# ---- the same clauses over canonical outcomes (canon.py) ------------------------------------------------------------
+from . import ckit as K
+
+
+def _size_val(e):
+    e = K.strip(e)
+    return e[0] == "field" and e[2] == "size" and K.strip(e[1]) == ("param", 1)
+
+
+def _pop_size(e):
+    e = K.strip(e)
+    return (callee_is(e, "Population::size") and K.strip(e[3][0]) == POP) or \
+        (callee_is(e, "[T]::len", "Vec::len") and K.strip(e[3][0]) == POP)
+
+
+def check_extreme_canon(ctx, name, reducer, other):
+    """Best/Worst: Ok(x) iff the reducer over population.into_iter() is Some(x), Err(EmptyPopulation) iff it is None;
+    nothing else is called"""
+    fn = ctx.fn(SEL % name)
+    paths = K.live(ctx.cpaths(fn))
+    label = "%s/%s" % (name.split("::")[-1], reducer)
+    good = bool(paths) and all(p.end == "return" for p in paths)
+    kinds = set()
+    detail = []
+    for p in paths:
+        red = K.calls_of(p, reducer)
+        extra = [c for c in p.calls() if not callee_is(c, "IntoIterator::into_iter", reducer)]
+        ok1 = len(red) == 1 and not extra and match(red[0], Call(reducer, Call("IntoIterator::into_iter", Param(2), nargs=1), nargs=1))
+        kind, pay = K.outcome(p)
+        detail.append("%s %s" % (kind, short(pay, 4) if pay is not None else ""))
+        if not ok1:
+            good = False
+            continue
+        m = red[0]
+        if kind == "ok":
+            good = good and pay == ("field", m, 0, "Some") and K.discr_is(p, lambda o: o == m, 1)
+        elif kind == "err":
+            e = K.conv_free(pay)
+            good = good and e[0] == "agg" and e[2].endswith("EmptyPopulation::EmptyPopulation") and K.discr_is(p, lambda o: o == m, 0)
+        else:
+            good = False
+        kinds.add(kind)
+    ctx.check(good and kinds == {"ok", "err"}, "R07.1", label, "; ".join(detail), fn.at(),
+              bad_detail="expected Ok(x) iff %s(into_iter(population)) is Some(x) and Err(EmptyPopulation) iff it is None, nothing else called; canonical outcomes: %s" % (reducer, "; ".join(detail)))
+
+
+def check_tournament_canon(ctx, only_rule):
+    R2, R3 = (only_rule, only_rule) if only_rule else ("R07.2", "R07.3")
+    fn = ctx.fn(SEL % "tournament::Tournament")
+    paths = K.live(ctx.cpaths(fn))
+    oks = [p for p in paths if K.outcome(p)[0] == "ok"]
+    errs = [p for p in paths if K.outcome(p)[0] == "err"]
+    other = [p for p in paths if K.outcome(p)[0] not in ("ok", "err")]
+    ctx.check(len(oks) == 1, R2, "Tournament/one-success-path", "%d non-error return paths" % len(oks), fn.at())
+    REDUCERS = ("Iterator::max", "Iterator::min", "Iterator::max_by", "Iterator::min_by", "Iterator::max_by_key", "Iterator::min_by_key", "Iterator::rev", "Iterator::map",
+                "Iterator::next", "Iterator::last", "Iterator::nth", "Iterator::fold", "Iterator::reduce", "Iterator::filter", "Iterator::take", "Iterator::skip")
+    the_max = None
+    for p in oks:
+        cm = K.calls_of(p, "IndexedRandom::choose_multiple", "IndexedRandom::choose", "IteratorRandom::choose_multiple", "Rng::random_range")
+        good = len(cm) == 1 and callee_is(cm[0], "IndexedRandom::choose_multiple")
+        if not good:
+            ctx.bad(R2, "Tournament/sample-once", "expected exactly one choose_multiple call on the success path, found %d" % len(cm), fn.at())
+            continue
+        c = cm[0]
+        src, rng, amount = c[3][0], c[3][1], c[3][2]
+        ctx.check(callee_is(K.strip(src, calls=()), "AsRef::as_ref") and K.strip(src) == POP, R2, "Tournament/sample-source", "choose_multiple source = " + short(src), fn.at())
+        ctx.check(rng == RNG, R2, "Tournament/sample-rng", "rng argument = " + short(rng), fn.at())
+        ctx.check(_size_val(amount), R2, "Tournament/sample-amount", "amount = " + short(amount), fn.at())
+        mx = K.calls_of(p, *REDUCERS)
+        red_ok = len(mx) == 1 and callee_is(mx[0], "Iterator::max") and mx[0][3][0] == c
+        ctx.check(red_ok, R2, "Tournament/reduce-max", "reducers on path: " + ", ".join(short(m, 3) for m in mx), fn.at())
+        if red_ok:
+            the_max = mx[0]
+            pay = K.outcome(p)[1]
+            ctx.check(pay == ("field", the_max, 0, "Some") and K.discr_is(p, lambda o: o == the_max, 1), R2, "Tournament/return", short(p.ret, 5), fn.at())
+        rl = K.rels(p)
+        ctx.check(K.holds(rl, _pop_size, "Ge", _size_val) and not K.holds(rl, _pop_size, "Gt", _size_val), R3, "Tournament/guard-strict-on-success",
+                  "; ".join("%s %s %s" % (short(a, 3), K.SYM[o], short(b, 3)) for a, o, b in rl), fn.at(),
+                  bad_detail="the success path must be taken exactly when population.size() >= self.size (a tournament over the whole population is legal); relations on the path: " +
+                  "; ".join("%s %s %s" % (short(a, 3), K.SYM[o], short(b, 3)) for a, o, b in rl))
+        g = [x for x in p.conds if (K.rel_of(x) or (None,) * 3)[1] in ("Ge", "Le", "Lt", "Gt") and (_pop_size(K.rel_of(x)[0]) or _pop_size(K.rel_of(x)[2]))]
+        if g:
+            ctx.check(p.blocks.index(g[0][2]) < p.blocks.index(c[4][1]) if (g[0][2] in p.blocks and c[4][1] in p.blocks) else True, R3, "Tournament/guard-before-sample", "guard precedes sampling", fn.at())
+    ctx.check(len(errs) >= 1, R3, "Tournament/error-path-exists", "%d error paths" % len(errs), fn.at())
+    for p in errs:
+        rl = K.rels(p)
+        ctx.check(K.holds(rl, _pop_size, "Lt", _size_val) and len(rl) == 1, R3, "Tournament/error-iff-too-small",
+                  "; ".join("%s %s %s" % (short(a, 3), K.SYM[o], short(b, 3)) for a, o, b in rl), fn.at())
+        drew = K.calls_of(p, "IndexedRandom::choose_multiple", "IndexedRandom::choose", "Rng::random_range")
+        ctx.check(not drew, R3, "Tournament/no-draw-on-error", "no sampling on the error path", fn.at())
+    for p in other:
+        # the only other way out: the (dead) None arm of max() over a non-empty sample
+        dead = p.end == "diverge" and the_max is not None and K.discr_is(p, lambda o: o == the_max, 0)
+        ctx.check(dead, R2, "Tournament/no-other-exit", "%s with [%s]" % (p.end, "; ".join(short(c[0], 3) for c in p.conds)), fn.at())
+    ctx.floor(only_rule or "R07", len(oks) + len(errs), 2, "Tournament::select return paths")
+
+
+def check_extreme(ctx, name, reducer, other):
+    K.either(ctx, lambda c: check_extreme_legacy(c, name, reducer, other), lambda c: check_extreme_canon(c, name, reducer, other))
+
+
+def check_tournament(ctx, only_rule):
+    K.either(ctx, lambda c: check_tournament_legacy(c, only_rule), lambda c: check_tournament_canon(c, only_rule))
+    check_order_and_constructors(ctx, only_rule)
+
+
+def check_order_and_constructors(ctx, only_rule):
+    """R07.4 (the order being maximised) and R07.5 (configured size = size used): not alternatives of anything,
+    always evaluated"""
+    if only_rule:
+        real = ctx
+        class _Proxy:
+            def __getattr__(self, n):
+                return getattr(real, n)
+            def ok(self, rule, *a, **k):
+                return real.ok(only_rule, *a, **k)
+            def bad(self, rule, *a, **k):
+                return real.bad(only_rule, *a, **k)
+            def check(self, cond, rule, *a, **k):
+                return real.check(cond, only_rule, *a, **k)
+            def floor(self, rule, *a, **k):
+                return real.floor(only_rule, *a, **k)
+        ctx = _Proxy()
     # R07.4: the order being maximised
     from . import rules_c15
     rules_c15.check_order_impls(ctx, "R07.4", "ec_core::individual::ec::EcIndividual", "EcIndividual", "test_results", False)
@@ -178,3 +296,13 @@ def check_tournament(ctx, only_rule):
     ctx.check(len(ps) == 1 and len(ctx.paths(f)) == 1 and ps[0].ret[0] == "call" and str(ps[0].ret[2]).endswith("Tournament::of_size::<2>") and len(ps[0].calls()) == 1, "R07.5",
               "Tournament::binary=of_size::<2>", str(ps[0].ret[2]) if ps and ps[0].ret[0] == "call" else (short(ps[0].ret, 5) if ps else "-"), f.at(),
               bad_detail="binary() must be of_size::<2>(); extracted " + (str(ps[0].ret[2]) if ps and ps[0].ret[0] == "call" else (short(ps[0].ret, 6) if ps else "-")))
+
+
+def check(ctx):
+    check_extreme(ctx, "best::Best", "Iterator::max", "Iterator::min")
+    check_extreme(ctx, "worst::Worst", "Iterator::min", "Iterator::max")
+    check_tournament(ctx, None)
+    from .common import check_population_size
+    check_population_size(ctx, "R07.3")
+
+
